@@ -283,6 +283,74 @@ def c_again(ctx, case):
         given = out
 
 
+U_ = p.Variable("u")
+SYMBOLIC_DEFS = {"sq": (U_, p.Sum((p.Power(U_, 2), 1))), "cube": (U_, p.Power(U_, 3)),
+                 "lin": (U_, p.Sum((p.Product((3, U_)), 2))),
+                 "nest2": (U_, p.Call(p.Variable("sq"), (p.Sum((U_, 1)),)))}
+
+
+def _inline_defs(e):
+    import dataclasses
+    if isinstance(e, p.Call) and isinstance(e.function, p.Variable) and e.function.name in SYMBOLIC_DEFS:
+        formal, body = SYMBOLIC_DEFS[e.function.name]
+        from .c08 import refsub
+        return _inline_defs(refsub(body, [(formal.name, _inline_defs(e.parameters[0]))]))
+    if isinstance(e, tuple):
+        return tuple(_inline_defs(c) for c in e)
+    if isinstance(e, p.Expression) and dataclasses.is_dataclass(e):
+        return type(e)(*[_inline_defs(getattr(e, f.name)) for f in dataclasses.fields(e)])
+    return e
+
+
+@check("C10.reentrant")
+def c_reentrant(ctx, case):
+    """Functions defined by expressions (sq(u) := u**2 + 1): the function table handed to
+    differentiate() obtains their derivative by differentiating the defining body with respect
+    to the formal parameter -- differentiate() is re-entered, with another variable, while the
+    outer traversal is running.  The outer result is the true partial derivative."""
+    e, wname, seed = case
+    from pymbolic import substitute
+    from pymbolic.mapper.differentiator import map_math_functions_by_name
+
+    def func_mapper(i, func, pars, allowed_nonsmoothness="none"):
+        if isinstance(func, p.Variable) and func.name in SYMBOLIC_DEFS:
+            formal, body = SYMBOLIC_DEFS[func.name]
+            dbody = differentiate(body, formal, func_mapper, allowed_nonsmoothness=allowed_nonsmoothness)
+            return substitute(dbody, {formal.name: pars[0]})
+        return map_math_functions_by_name(i, func, pars, allowed_nonsmoothness=allowed_nonsmoothness)
+    rng = ctx.sub_rng("pts", seed)
+    wv = p.Variable(wname)
+    flat = _inline_defs(e)
+    fns = {k: (lambda t, k=k: refsem.ev(SYMBOLIC_DEFS[k][1], {"u": t, **fns})) for k in SYMBOLIC_DEFS}
+    try:
+        de = differentiate(e, wv, func_mapper)
+        de2 = differentiate(e, wv, func_mapper)
+    except RecursionError:
+        raise
+    except Exception as ex:  # noqa: BLE001
+        ctx.fail("C10.reentrant", case, f"reentrant:raised:{type(ex).__name__}",
+                 f"differentiate({e}, {wname}) with a function table that re-enters differentiate() "
+                 f"raised {type(ex).__name__}: {ex}")
+        return
+    for pt in points(rng, 4, True):
+        try:
+            ref = D.lift(refsem.ev(flat, dual_env(pt, wv)))
+        except (ZeroDivisionError, ValueError, OverflowError, TypeError):
+            ctx.count("point_undefined")
+            continue
+        for d_, which in ((de, "first"), (de2, "second")):
+            got = refsem.outcome(lambda: refsem.ev(d_, {**pt, **fns}))
+            ctx.case(None)
+            ctx.count("reentrant_derivative_values")
+            if got[0] != "v" or not (got[1] == ref.d):
+                ctx.fail("C10.reentrant", case, "reentrant:value",
+                         f"d/d{wname} of {e} = {d_} ({which} call; sq, cube, lin, nest2 are defined by "
+                         f"expressions and differentiated by re-entering differentiate()); at {pt}: "
+                         f"{short(got)}, the dual-number derivative of the written-out expression "
+                         f"{flat} is {ref.d!r}")
+                return
+
+
 @check("C10.refusal")
 def c_refusal(ctx, case):
     """Non-smooth functions are refused unless allowed -- through every entry point (the
@@ -561,6 +629,22 @@ def workload(ctx):
             ctx.run("C10.diff", (e, "none", True, rng.randrange(10**9)))
             e = p.Sum(tuple(p.Product((i + 1, p.Power(X, i % 5))) for i in range(w)))
             ctx.run("C10.diff", (e, "none", True, rng.randrange(10**9)))
+        sq_, cube_, lin_, nest2_ = (p.Variable(n_) for n_ in ("sq", "cube", "lin", "nest2"))
+        c_ = p.CommonSubexpression(p.Sum((p.Product((X, Y)), 1)))
+        for i, e in enumerate([
+                p.Sum((p.Call(sq_, (p.Product((X, Y)),)), p.Power(X, 3))),
+                p.Sum((p.Power(X, 3), p.Call(sq_, (p.Product((X, Y)),)))),
+                p.Product((p.Power(Y, 2), p.Call(cube_, (p.Sum((X, Y)),)))),
+                p.Sum((p.Call(sq_, (p.Call(cube_, (c_,)),)), p.Power(c_, 2))),
+                p.Sum((p.Power(c_, 2), p.Call(lin_, (c_,)), c_)),
+                p.Product((p.Call(lin_, (X,)), p.Call(sq_, (Y,)), X)),
+                p.Quotient(p.Call(nest2_, (X,)), p.Sum((p.Power(Y, 2), 1))),
+                p.Sum((p.Call(nest2_, (p.Product((X, Y)),)), p.Product((X, Y, Y)))),
+                p.Call(sq_, (p.Call(sq_, (p.Call(sq_, (X,)),)),))]):
+            for wn in ("x", "y"):
+                if ctx.mine("reentrant"):
+                    ctx.case(("reentrant", i, wn), True, n=0)
+                    ctx.run("C10.reentrant", (e, wn, i))
         # one mapper fed its own output (second and third derivatives), wrappers inside
         t_ = p.CommonSubexpression(p.Sum((p.Power(X, 3), p.Product((Y, X)))), "t")
         u_ = p.CommonSubexpression(p.Product((X, X, Y)))
@@ -651,6 +735,7 @@ def workload(ctx):
                 ctx.count("handler:map_math_functions_by_name", v)
     ctx.floor("wide_nodes", 50)
     ctx.floor("repeated_derivative_values", 400)
+    ctx.floor("reentrant_derivative_values", 100)
     ctx.floor("kind_derivative_values", 500)
     ctx.floor("stream:rows", 300)
     ctx.floor("stream:compared_exactly", 500)
